@@ -536,6 +536,123 @@ def linked_modules(res, T, t, cls, rng, n):
                 res.violation(f"C11:exclusive-both-on:{T}:linked", f"{T}: saved module {which} has {both_on(c)} on together", case)
 
 
+def subclass_options(res, T, t, cls, rng, n):
+    """Applications subclass module types for builds of SunVox with other options: a subclass RE-DECLARES a ranged option with
+    other bounds (dataclasses.replace on the library's declaration) and ADDS options (a new byte behind the record, a free
+    bit inside it) - after the stock class has long been in use.  The subclass's declarations are what counts for it: clamping,
+    bit positions, record length, and every value together with the inherited options' values."""
+    import dataclasses
+    import rv.api as api
+    from rv.modules import MODULE_CLASSES
+    from rv.option import Option
+    originals = dict(MODULE_CLASSES)
+    used = {}
+    for o in t.options:
+        for b in range(o.size):
+            pos = o.byte * 8 + o.bit + b
+            used[pos] = o.name
+    nbytes = max(o.byte for o in t.options) + 1
+    free = [pos for pos in range(nbytes * 8) if pos not in used]
+    by = {o.name: o for o in t.options}
+    try:
+        for k in range(n):
+            ns = {"__module__": cls.__module__, "__doc__": cls.__doc__}
+            added = []
+            # a flag in a free bit of the record, if there is one; a 4-bit number and a flag in new bytes behind it
+            if free and k % 2 == 0:
+                pos = rng.choice(free)
+                ns["rvmon_free_bit"] = Option(name="rvmon_free_bit", byte=pos // 8, bit=pos % 8, size=1, default=False)
+                added.append(("rvmon_free_bit", pos // 8, pos % 8, 1))
+            nb = nbytes + rng.randrange(3)
+            ns["rvmon_voices"] = Option(name="rvmon_voices", byte=nb, bit=0, size=4, min=0, max=15, default=0)
+            added.append(("rvmon_voices", nb, 0, 4))
+            ns["rvmon_flag"] = Option(name="rvmon_flag", byte=nb, bit=6, size=1, default=False)
+            added.append(("rvmon_flag", nb, 6, 1))
+            narrowed = None
+            ranged = [o for o in t.options if o.min is not None and o.max is not None and o.max - o.min >= 4]
+            if ranged:
+                o = rng.choice(ranged)
+                lo, hi = o.min + rng.randrange(2), o.max - rng.randint(1, (o.max - o.min) // 2)
+                ns[o.name] = dataclasses.replace(getattr(cls, o.name), min=lo, max=hi)
+                narrowed = (o.name, lo, hi)
+            try:
+                sub_cls = type(cls.__name__ + "Build2", (cls,), ns)
+            except Exception as e:
+                res.count("option_subclass_refused")
+                res.hist("option_subclass_refused_why", type(e).__name__)
+                continue
+            if any(nm not in sub_cls.options for nm, *_ in added):
+                res.count("option_subclass_declarations_not_taken")
+                continue
+            res.count("option_subclasses")
+            case = {"type": T, "family": "subclass-options", "added": [list(a) for a in added], "narrowed": narrowed}
+            res.case((T, "subclass-options", k))
+            mod = sub_cls()
+            want = {}
+            for nm, _byte, _bit, size in added:
+                v = rng.randrange(1 << size) if size > 1 else rng.random() < 0.7
+                setattr(mod, nm, v)
+                want[nm] = v
+            inherited = rng.sample(sorted(by), min(len(by), 3))
+            model = Model(t)
+            for nm in inherited:
+                if narrowed and nm == narrowed[0]:
+                    continue
+                v = rng.choice(_all_values(by[nm]))
+                setattr(mod, nm, v)
+                model.assign(nm, v)
+                model.sync_partners(nm, mod, res)
+            model.sync_group(mod, res)
+            if narrowed:
+                nm, lo, hi = narrowed
+                for given in (hi + 1, by[nm].max, lo - 1, hi, lo, by[nm].max + 50):
+                    setattr(mod, nm, given)
+                    got = getattr(mod, nm)
+                    res.count("narrowed_option_assignments")
+                    if got != max(lo, min(hi, given)):
+                        res.violation(f"C11:subclass-clamp:{T}.{nm}", f"a subclass declares {T}.{nm} as {lo}..{hi} (the stock range is {by[nm].min}..{by[nm].max}): assigning {given} gives {got}", case)
+                        break
+                want[nm] = getattr(mod, nm)
+            try:
+                raw = api.Synth(mod).read()
+                rec = _options_record(raw, t, False)
+                back = api.read_sunvox_file(BytesIO(raw)).module
+            except Exception as e:
+                res.violation(f"C11:subclass-raises:{T}:{workload.exc_key(e)}", f"{T} subclass with added / re-declared options: save/load raised {e!r}", case)
+                continue
+            top = max(b for _n, b, _bit, _s in added)
+            if rec is None or len(rec) <= top:
+                res.violation(f"C11:subclass-record-short:{T}", f"{T} subclass declares an option in byte {top}; the written record has {None if rec is None else len(rec)} bytes", case)
+                continue
+            for nm, byte, bit, size in added:
+                stored = (rec[byte] >> bit) & ((1 << size) - 1)
+                if stored != int(want[nm]):
+                    res.violation(f"C11:subclass-bits:{T}", f"{T} subclass: added option {nm} = {want[nm]!r} is stored as {stored} in byte {byte} bit {bit}", case)
+                    break
+            for nm, v in want.items():
+                if _ival(getattr(back, nm, None)) != _ival(v):
+                    res.violation(f"C11:subclass-roundtrip:{T}", f"{T} subclass: option {nm} = {v!r} reads back {getattr(back, nm, None)!r} (loaded as {type(back).__name__})", case)
+                    break
+            for o in t.options:
+                if narrowed and o.name == narrowed[0]:
+                    continue
+                if _ival(getattr(back, o.name)) != _ival(model.logical(o.name)):
+                    res.violation(f"C11:subclass-inherited:{T}.{o.name}", f"{T} subclass: inherited option {o.name} reads back {getattr(back, o.name)!r}, expected {model.logical(o.name)!r}", case)
+                    break
+            MODULE_CLASSES.clear()
+            MODULE_CLASSES.update(originals)
+            # the stock class is unimpressed
+            stock = cls()
+            if narrowed:
+                nm = narrowed[0]
+                setattr(stock, nm, by[nm].max)
+                if getattr(stock, nm) != by[nm].max:
+                    res.violation(f"C11:subclass-changed-stock:{T}.{nm}", f"after a subclass narrowed {nm}, the stock {T} clamps {by[nm].max} to {getattr(stock, nm)}", case)
+    finally:
+        MODULE_CLASSES.clear()
+        MODULE_CLASSES.update(originals)
+
+
 def random_full(res, T, rng, n):
     from rv.modules import MODULE_CLASSES
     t = spec.load()[T]
@@ -695,6 +812,7 @@ def run_shard(spec_, res):
         from rv.modules import MODULE_CLASSES
         interleaved_writers(res, spec_["type"], spec.load()[spec_["type"]], MODULE_CLASSES[spec.load()[spec_["type"]].mtype], rng, 20 if spec_["tier"] == "quick" else 200)
         linked_modules(res, spec_["type"], spec.load()[spec_["type"]], MODULE_CLASSES[spec.load()[spec_["type"]].mtype], rng, 40 if spec_["tier"] == "quick" else 400)
+        subclass_options(res, spec_["type"], spec.load()[spec_["type"]], MODULE_CLASSES[spec.load()[spec_["type"]].mtype], rng, 12 if spec_["tier"] == "quick" else 120)
     res.count("types_" + spec_["mode"])
 
 
